@@ -101,7 +101,7 @@ EMPTY_Q = {"t2": [], "exc_f": "", "exc_s": "", "cm_f": [], "cm_s": [], "rates_f"
            "thr_s": {}, "eer_f": [0, 0], "eer_s": [0, 0], "auc_f": [0, 0], "auc_s": [0, 0], "bitwise_identical": True}
 
 
-def event(a, cid, mid, ids, flavour, full=True):
+def event(a, cid, mid, ids, flavour, full=True, dtype=None):
     from score_analysis import Scores
     from score_analysis.applications import FraudScores
     e = {"id": next(ids), "cid": cid, "op": "FraudNew", "exc": "", "args": a, "flavour": flavour,
@@ -109,6 +109,9 @@ def event(a, cid, mid, ids, flavour, full=True):
          "genuines": [], "frauds": [], "queries": dict(EMPTY_Q)}
     g = np.array([realise(v, mid, flavour) for v in a["g"]], dtype=float)
     f = np.array([realise(v, mid, flavour + 1) for v in a["f"]], dtype=float)
+    if dtype is not None:                 # hard 0/1 decisions stored compactly (uint8 / bool / int)
+        g, f = g.astype(dtype), f.astype(dtype)
+        e["dtype"] = np.dtype(dtype).name
     inv = {realise(v, mid, 0): v for v in range(0, mid + 2)}
     back = lambda arr: [inv.get(float(x), -999) for x in np.asarray(arr)]  # noqa
     with warnings.catch_warnings():
@@ -158,6 +161,29 @@ def run(ctx: core.Ctx):
                              full=ctx.tier == "thorough" or cid % 4 == 0))
         if any(v in (-1, 0, mid + 1, mid + 2) for v in a["g"] + a["f"]):
             ctx.nontrivial.add(json.dumps(a, sort_keys=True))
+    # independent trace: 7 .. 40 scores per class on a grid of 1/64, handed over unsorted; 0/1-valued
+    # scores also as uint8 / bool / int64 arrays
+    BIGMID = 63
+    rnd = np.random.RandomState(ctx.seed + 19)
+    big_evs, big_cases = [], []
+    for k in range(40 if ctx.tier == "quick" else 400):
+        ng, nf = int(rnd.randint(7, 41)), int(rnd.randint(7, 41))
+        sc = ["genuine", "fraud"][k % 2]
+        dt = [None, None, np.uint8, bool, np.int64, None][k % 6]
+        if dt is None:
+            lo_g, lo_f = (20, 0) if sc == "genuine" else (0, 20)
+            gv = [int(x) for x in rnd.randint(lo_g, lo_g + 45, ng)]
+            fv = [int(x) for x in rnd.randint(lo_f, lo_f + 45, nf)]
+            if k % 5 == 0:                # distinct smallest values (no ties at the bottom)
+                gv = [int(x) for x in rnd.permutation(BIGMID + 2)[:ng]]
+                fv = [int(x) for x in rnd.permutation(BIGMID + 2)[:nf]]
+        else:
+            gv = [int(x) * (BIGMID + 1) for x in rnd.randint(0, 2, ng)]
+            fv = [int(x) * (BIGMID + 1) for x in rnd.randint(0, 2, nf)]
+            gv[:2], fv[:2] = [BIGMID + 1, 0], [BIGMID + 1, 0]          # certainly not sorted
+        a = {"g": gv, "f": fv, "eg": int(rnd.randint(0, 3)), "ef": int(rnd.randint(0, 3)), "sc": sc}
+        big_cases.append(dict(a, kind="indep", dtype=None if dt is None else np.dtype(dt).name))
+        big_evs.append(event(a, k, BIGMID, ids, 0, full=k % 4 == 0, dtype=dt))
     from score_analysis.applications.doc_fraud import binary_to_doc_label, doc_to_binary_label
     lab = {"id": next(ids), "cid": 0, "op": "labels", "exc": "",
            "d2b": {d: doc_to_binary_label(d).value for d in ("genuine", "fraud")},
@@ -167,6 +193,7 @@ def run(ctx: core.Ctx):
     evs.append(lab)
     ctx.sample(evs[len(evs) // 3])
     ctx.judge("Trace_C19", evs, cases=cases, batch=2500, consts_cfg=f"CONSTANTS\n  Mid = {mid}\n")
+    ctx.judge("Trace_C19", big_evs, cases=big_cases, tag="big", batch=50, consts_cfg=f"CONSTANTS\n  Mid = {BIGMID}\n")
     ctx.rule = ("every (genuines, frauds, easy counts, score_class) tuple over a value domain straddling "
                 "[0,1] (empty classes included), constructor and from_labels, several float realisations of "
                 "'just outside'; non-trivial = some value on or beyond a boundary of [0,1]")
